@@ -25,6 +25,8 @@ type histOpts struct {
 	terminate    bool // may end with Terminate
 	maxUnits     int
 	names        int // size of the name pools
+	between      bool // traffic between Bind and Execute
+	bigValues    bool // parameter values that cross the 4 KiB allocation granule
 }
 
 type histGen struct {
@@ -266,6 +268,9 @@ func (g *histGen) genBind(portal, stmt string) pgwire.FMsg {
 		}
 		if (oidv == pgwire.OIDText || oidv == pgwire.OIDVarchar || oidv == pgwire.OIDBytea) && pf[i] == 1 && r.Chance(1, 3) {
 			enc = r.Bytes(r.PickInt(0, 1, 9, 200)) // arbitrary bytes incl. NUL
+			if g.o.bigValues && g.m.Limit >= 16384 && r.Chance(1, 3) {
+				enc = r.Bytes(r.PickInt(3000, 4090, 4096, 5000))
+			}
 		}
 		if enc == nil {
 			enc = []byte{}
@@ -387,6 +392,30 @@ func (g *histGen) unit() {
 				ms := []pgwire.FMsg{g.genBind(pn, sn)}
 				if r.Bool() {
 					ms = append(ms, pgwire.FMsg{K: "D", Sub: 'P', S1: pn})
+				}
+				// traffic between Bind and Execute: the parameters are windows into
+				// the read buffer and must survive it
+				if g.o.between {
+					for n := r.Intn(4); n > 0; n-- {
+						switch r.Intn(5) {
+						case 0:
+							ms = append(ms, pgwire.FMsg{K: "D", Sub: 'S', S1: sn})
+						case 1:
+							k2 := g.newKey()
+							g.c.Programs[k2] = &Program{Stmts: []*StmtProg{g.genStmt(true)}}
+							ms = append(ms, pgwire.FMsg{K: "P", S1: "other", S2: k2 + " " + r.Str(r.PickInt(0, 10, 3000))})
+						case 2:
+							ms = append(ms, pgwire.FMsg{K: "H"})
+						case 3:
+							if pn != "" {
+								k2 := g.newKey()
+								g.c.Programs[k2] = &Program{Stmts: []*StmtProg{g.genStmt(false)}}
+								ms = append(ms, pgwire.FMsg{K: "Q", S1: k2 + " " + r.Str(r.PickInt(0, 100, 5000))})
+							}
+						case 4:
+							ms = append(ms, pgwire.FMsg{K: "d", Data: r.Bytes(r.PickInt(1, 100, 4000))})
+						}
+					}
 				}
 				ms = append(ms, pgwire.FMsg{K: "E", S1: pn}, pgwire.FMsg{K: "S"})
 				g.add(ms...)
